@@ -492,6 +492,17 @@ def assemble_item(d, info, src, srcfile_label, log):
                     body = src[og["body"][0]:og["body"][1]].decode()
                     arms = [src[x:y].decode() + " if " + g + " => " + body + "," for x, y in og["alts"]]
                     add(a0, a1, "\n".join(arms), "DESUGAR_OR_GUARD")
+            elif o == "desugar(guard_wild)":
+                # `match x { P if g => e1, _ => e2 }` -> `match x { P => if g { e1 } else { e2 }, _ => e2 }`
+                # (Verus loses track of `*self` in a guarded arm that mutates it)
+                if not it.get("guard_wilds"):
+                    raise Undecided(f"{d.path}: desugar(guard_wild) but no `P if g => .., _ => ..` match found")
+                for gw in it["guard_wilds"]:
+                    g = src[gw["guard"][0]:gw["guard"][1]].decode()
+                    e2 = src[gw["else_body"][0]:gw["else_body"][1]].decode()
+                    add(gw["if_start"], gw["guard"][1], "", "DESUGAR_GUARD_WILD")
+                    add(gw["body"][0], gw["body"][0], "if " + g + " { ", "DESUGAR_GUARD_WILD")
+                    add(gw["body"][1], gw["body"][1], " } else { " + e2 + " }", "DESUGAR_GUARD_WILD")
             elif o == "desugar(wild)":
                 # `_` as a closure or function parameter -> a fresh identifier (Verus rejects `_` parameters)
                 if not it.get("wilds"):
